@@ -126,7 +126,7 @@ func arConcrete(p *Prog) *arBounded {
 	add := func(desc, clause string, b []byte) { cases = append(cases, tcase{desc, b, clause}) }
 	G := "!<arch>\n"
 	// well-formed archives
-	names := []string{"debian-binary", "control.tar.gz/", "a b/", "x", "abcdefghijklmnop", "dir/sub/", "trailing//", "", "/"}
+	names := []string{"debian-binary", "control.tar.gz/", "a b/", "x", "abcdefghijklmnop", "dir/sub/", "trailing//", "", "/", "#1/20", "//", "/0"}
 	sizes := []int{0, 1, 4, 5}
 	for i, n := range names {
 		for _, s := range sizes {
